@@ -61,13 +61,14 @@ class Run:
 
     def __init__(self, c, variant='api', pool='plain', seed=0, ignore_contract=False, metas=True,
                  monitor=False, sc=None, names=None, rename=None, reimport=False, copy_into=False,
-                 manual_execute=False, shadow=False, epoch=0, device=False):
+                 manual_execute=False, shadow=False, epoch=0, device=False, moving=False):
         self.c = c
         self.shadow = None
         self.manual_execute = manual_execute
         self.host_only = set()
         self.broken = ''
         self.interp = None
+        self.moving = None
         self.base = 0
         self.listener = self.listener2 = self.mon = None
         self.opt = {'ignore': bool(ignore_contract), 'metas': bool(metas)}
@@ -108,7 +109,12 @@ class Run:
             from probes import Device
             ctx['dev'] = Device()
         self.base = epoch       # the run starts at a large absolute time (float resolution, tolerances)
-        if epoch:
+        self.moving = None
+        if moving:
+            from probes import MovingClock
+            self.moving = MovingClock(epoch)
+            self.interp = Interpreter(sc, initial_context=ctx, ignore_contract=ignore_contract, clock=self.moving)
+        elif epoch:
             from sismic.clock import SimulatedClock
             clk = SimulatedClock()
             clk.time = epoch
@@ -287,7 +293,13 @@ class Run:
             elif op == 'adv':
                 it.clock.time += h.get('d', 0)
             elif op == 'exec':
-                ms = it.execute_once()
+                if self.moving is not None:
+                    self.moving.arm()
+                try:
+                    ms = it.execute_once()
+                finally:
+                    if self.moving is not None:
+                        self.moving.disarm()
                 if ms is not None:
                     o['some'] = True
                     o['steps'] = self.flat_step(ms)
@@ -375,6 +387,7 @@ def fork_run(r, mode):
         r2.broken = 'SnapshotFailed:' + type(e).__name__
         return r2
     r2.interp = it2
+    r2.moving = it2.clock if r.moving is not None else None
     r2.sc = it2.statechart
     r2.probes = it2.context['p'].__self__
     ls = [l for l in it2._listeners if isinstance(l, Listener)]
